@@ -1,20 +1,668 @@
 //! Seeded random case generators (impl -> spec direction): inputs beyond TLC's exhaustive bound.
+//! Everything generated here is well typed by construction (the rule must load) and lies inside
+//! the part of the rule language for which the specification has an oracle.
 use crate::enc::*;
 use serde_json::{json, Value as J};
 use std::fs::File;
 use std::io::{BufWriter, Write};
 
+pub struct G {
+    pub r: Rng,
+    /// probability (percent) of deliberately producing constructs that trigger a known finding
+    pub kf_pct: usize,
+}
+
+const FIELDS: &[&str] = &["f", "g", "h", "n", "m", "s.t", "s.u", "arr", "o"];
+const IDENTS: &[&str] = &["A", "B", "C", "D", "sel", "android", "order", "nothing", "allow", "offline", "notable", "orbit"];
+const ALPHA: &[char] = &['a', 'b', 'A', 'B', 'c', '1', ' ', '.', 'é', 'É', '😀', 'ß', '-'];
+const ALPHA_SMALL: &[char] = &['a', 'b', 'A', 'B'];
+
+pub fn s_node(s: &str) -> J {
+    json!({"t":"S","s":cps(s)})
+}
+pub fn i_node(text: &str) -> J {
+    let n = int_node(text);
+    json!({"t":"I","neg":n["neg"],"d":n["d"]})
+}
+pub fn f_node(text: &str) -> J {
+    let n = flt_node(text);
+    json!({"t":"F","neg":n["neg"],"d":n["d"],"fr":n["fr"],"sp":n["sp"]})
+}
+pub fn obj(kv: Vec<(String, J)>) -> J {
+    json!({"t":"O","kv": kv.into_iter().map(|(k, v)| json!([cps(&k), v])).collect::<Vec<_>>()})
+}
+
+impl G {
+    pub fn new(seed: u64) -> G {
+        G { r: Rng::new(seed), kf_pct: 3 }
+    }
+
+    pub fn word(&mut self, max: usize, small: bool) -> String {
+        let n = self.r.below(max + 1);
+        let al = if small || self.r.chance(2, 3) { ALPHA_SMALL } else { ALPHA };
+        (0..n).map(|_| *self.r.pick(al)).collect()
+    }
+
+    pub fn int_text(&mut self) -> String {
+        match self.r.below(12) {
+            0 => "0".into(),
+            1 => "1".into(),
+            2 => "2".into(),
+            3 => "-1".into(),
+            4 => "5".into(),
+            5 => "9223372036854775807".into(),
+            6 => "-9223372036854775808".into(),
+            7 => "10".into(),
+            8 => "-5".into(),
+            9 => format!("{}", self.r.next() as i64 >> self.r.below(63)),
+            _ => format!("{}", self.r.below(20)),
+        }
+    }
+    pub fn uint_text(&mut self) -> String {
+        match self.r.below(8) {
+            0 => "9223372036854775808".into(),
+            1 => "18446744073709551615".into(),
+            2 => format!("{}", self.r.next() >> self.r.below(64)),
+            _ => {
+                let t = self.int_text();
+                t.trim_start_matches('-').to_string()
+            }
+        }
+    }
+    /// short dyadic decimal: exact in f64 and printed by Rust exactly as written (modulo ".0")
+    pub fn flt_text(&mut self) -> String {
+        let whole = [0u32, 1, 2, 5, 10, 1024][self.r.below(6)];
+        let frac = ["0", "5", "25", "75", "125", "0625"][self.r.below(6)];
+        let neg = self.r.chance(1, 4);
+        format!("{}{}.{}", if neg { "-" } else { "" }, whole, frac)
+    }
+
+    // ------------------------------------------------------------------ patterns
+    pub fn pattern(&mut self, allow_regex: bool) -> J {
+        let ic = self.r.chance(1, 3);
+        let kinds: &[&str] = if allow_regex {
+            &["exact", "exact", "prefix", "suffix", "contains", "contains", "any", "regex"]
+        } else {
+            &["exact", "exact", "prefix", "suffix", "contains", "contains", "any"]
+        };
+        let k = *self.r.pick(kinds);
+        match k {
+            "any" => json!({"t":"pat","k":"any","ic":ic,"a":[]}),
+            "regex" => {
+                let mut atoms = vec![];
+                let n = 1 + self.r.below(3);
+                if self.r.chance(1, 6) {
+                    atoms.push(json!({"t":"bol"}));
+                }
+                for _ in 0..n {
+                    atoms.push(match self.r.below(8) {
+                        0 => json!({"t":"dot"}),
+                        1 => json!({"t":"star"}),
+                        2 => json!({"t":"lazy"}),
+                        3 => json!({"t":"c","c":46}),
+                        _ => json!({"t":"c","c": *self.r.pick(ALPHA_SMALL) as u32}),
+                    });
+                }
+                if self.r.chance(1, 6) {
+                    atoms.push(json!({"t":"eol"}));
+                }
+                json!({"t":"pat","k":"regex","ic":ic,"a":atoms})
+            }
+            _ => {
+                let mut a = self.word(3, false);
+                a = a.replace('*', "");
+                if k != "exact" && k != "contains" && a.is_empty() {
+                    a = "a".into();
+                }
+                if k == "prefix" {
+                    // keep the rendering unambiguous (render.rs refuses otherwise)
+                    let c = a.chars().next().unwrap();
+                    if "?><='\"i".contains(c) {
+                        a = format!("b{}", a);
+                    }
+                }
+                json!({"t":"pat","k":k,"ic":ic,"a":cps(&a)})
+            }
+        }
+    }
+
+    /// a string that relates to pattern p in an interesting way
+    pub fn near(&mut self, p: &J) -> String {
+        if p["k"] == "regex" || p["k"] == "any" {
+            let mut s = String::new();
+            if let Some(atoms) = p["a"].as_array() {
+                for a in atoms {
+                    match a["t"].as_str().unwrap_or("") {
+                        "c" => s.push(char::from_u32(a["c"].as_u64().unwrap_or(97) as u32).unwrap_or('a')),
+                        "dot" => s.push(*self.r.pick(ALPHA_SMALL)),
+                        "star" | "lazy" => s.push_str(&self.word(2, true)),
+                        _ => {}
+                    }
+                }
+            }
+            return self.decorate(s);
+        }
+        let a = str_of(&p["a"]).unwrap_or_default();
+        self.decorate(a)
+    }
+    fn decorate(&mut self, a: String) -> String {
+        let a = match self.r.below(4) {
+            0 => a.to_uppercase(),
+            1 => a.to_lowercase(),
+            _ => a,
+        };
+        match self.r.below(6) {
+            0 => format!("{}{}", self.word(2, true), a),
+            1 => format!("{}{}", a, self.word(2, true)),
+            2 => format!("{}{}{}", self.word(1, true), a, self.word(1, true)),
+            3 => {
+                let mut c: Vec<char> = a.chars().collect();
+                if !c.is_empty() {
+                    let i = self.r.below(c.len());
+                    c[i] = *self.r.pick(ALPHA_SMALL);
+                }
+                c.into_iter().collect()
+            }
+            _ => a,
+        }
+    }
+
+    // ------------------------------------------------------------------ values of a rule
+    fn num_const(&mut self, float: bool) -> J {
+        if float {
+            flt_node(&self.flt_text())
+        } else {
+            int_node(&self.int_text())
+        }
+    }
+    fn cmp_val(&mut self, float: bool) -> J {
+        let op = *self.r.pick(&["eq", "gt", "ge", "lt", "le"]);
+        json!({"t":"cmp","op":op,"n":self.num_const(float)})
+    }
+
+    /// scalar member value of type class `class`: "str" | "num" | "bool" | "null"
+    fn scalar(&mut self, class: &str, cast: &str) -> J {
+        match class {
+            "str" => {
+                if cast == "str" && self.r.chance(1, 3) {
+                    if self.r.chance(1, 2) {
+                        { let fl = self.r.chance(1, 3); json!({"t":"num","n":self.num_const(fl)}) }
+                    } else {
+                        json!({"t":"bool","b":self.r.chance(1, 2)})
+                    }
+                } else {
+                    self.pattern(true)
+                }
+            }
+            "num" => {
+                let float = match cast {
+                    "int" => false,
+                    "flt" => true,
+                    _ => self.r.chance(1, 3),
+                };
+                if cast == "int" && self.r.chance(1, 5) {
+                    json!({"t":"bool","b":self.r.chance(1, 2)})
+                } else if self.r.chance(1, 2) {
+                    json!({"t":"num","n":self.num_const(float)})
+                } else {
+                    self.cmp_val(float)
+                }
+            }
+            "bool" => json!({"t":"bool","b":self.r.chance(1, 2)}),
+            _ => json!({"t":"null"}),
+        }
+    }
+
+    fn field(&mut self, nested: bool) -> String {
+        if nested {
+            (*self.r.pick(&["f", "g", "n", "t", "u"])).to_string()
+        } else {
+            (*self.r.pick(FIELDS)).to_string()
+        }
+    }
+
+    pub fn entry(&mut self, depth: usize, nested: bool) -> J {
+        let f = self.field(nested);
+        let roll = self.r.below(100);
+        // (modifier, value)
+        let (m, c, v): (&str, u64, J) = if roll < 40 {
+            ("none", 0, self.scalar("str", "none"))
+        } else if roll < 50 {
+            ("none", 0, self.scalar("num", "none"))
+        } else if roll < 54 {
+            let class = if self.r.chance(1, 2) { "bool" } else { "null" };
+            ("none", 0, self.scalar(class, "none"))
+        } else if roll < 62 && depth > 0 {
+            let n = 1 + self.r.below(2);
+            let es: Vec<J> = (0..n).map(|_| self.entry(depth - 1, true)).collect();
+            ("none", 0, json!({"t":"map","es":dedup_entries(es)}))
+        } else if roll < 72 {
+            // plain list, possibly mixed classes
+            let n = 1 + self.r.below(4);
+            let mut vs = vec![];
+            for _ in 0..n {
+                let class = *self.r.pick(&["str", "str", "str", "num", "bool", "null"]);
+                vs.push(self.scalar(class, "none"));
+            }
+            if depth > 0 && self.r.chance(1, 6) {
+                vs.push(json!({"t":"map","es":[self.entry(depth - 1, true)]}));
+            }
+            ("none", 0, json!({"t":"list","vs":vs}))
+        } else if roll < 82 {
+            // quantified list: one type class
+            let class = *self.r.pick(&["str", "str", "str", "num", "bool"]);
+            let n = 1 + self.r.below(4);
+            let mut vs: Vec<J> = (0..n).map(|_| self.scalar(class, "none")).collect();
+            if class == "str" && !self.r.chance(self.kf_pct, 100) {
+                vs = avoid_partial_batch(vs);
+            }
+            if self.r.chance(1, 2) {
+                ("all", 0, json!({"t":"list","vs":vs}))
+            } else {
+                let c = self.r.below(n + 2) as u64;
+                ("of", c, json!({"t":"list","vs":vs}))
+            }
+        } else if roll < 88 {
+            let v = if self.r.chance(1, 3) {
+                let n = 1 + self.r.below(3);
+                json!({"t":"list","vs":(0..n).map(|_| self.scalar("str", "none")).collect::<Vec<_>>()})
+            } else {
+                let class = *self.r.pick(&["str", "str", "num", "bool", "null"]);
+                self.scalar(class, "none")
+            };
+            ("not", 0, v)
+        } else if roll < 92 {
+            let v = if self.r.chance(1, 4) {
+                let n = 1 + self.r.below(3);
+                json!({"t":"list","vs":(0..n).map(|_| self.scalar("num", "int")).collect::<Vec<_>>()})
+            } else {
+                self.scalar("num", "int")
+            };
+            ("int", 0, v)
+        } else if roll < 95 {
+            ("flt", 0, self.scalar("num", "flt"))
+        } else {
+            let v = if self.r.chance(1, 4) {
+                let n = 1 + self.r.below(3);
+                json!({"t":"list","vs":(0..n).map(|_| self.scalar("str", "str")).collect::<Vec<_>>()})
+            } else {
+                self.scalar("str", "str")
+            };
+            ("str", 0, v)
+        };
+        json!({"m":m,"c":c,"f":cps(&f),"v":v})
+    }
+
+    pub fn mapping(&mut self, depth: usize) -> J {
+        let n = 1 + self.r.below(3);
+        let es: Vec<J> = (0..n).map(|_| self.entry(depth, false)).collect();
+        json!({"t":"map","es":dedup_entries(es)})
+    }
+
+    pub fn body(&mut self, depth: usize) -> J {
+        if self.r.chance(1, 4) {
+            let n = 1 + self.r.below(3);
+            json!({"t":"seq","ms":(0..n).map(|_| self.mapping(depth)).collect::<Vec<_>>()})
+        } else {
+            self.mapping(depth)
+        }
+    }
+
+    // ------------------------------------------------------------------ condition
+    fn operand(&mut self, kind: &str) -> J {
+        if self.r.chance(1, 2) || kind == "str" {
+            json!({"t":"cast","k":kind,"f":cps(&self.field(false))})
+        } else if kind == "int" {
+            let mut t = self.int_text().trim_start_matches('-').to_string();
+            if t.parse::<i64>().is_err() {
+                t = "9223372036854775807".into();
+            }
+            json!({"t":"const","n":int_node(&t)})
+        } else {
+            let t = self.flt_text();
+            json!({"t":"const","n":flt_node(t.trim_start_matches('-'))})
+        }
+    }
+
+    pub fn cond(&mut self, names: &[String], quantifiable: &[String], depth: usize) -> J {
+        let roll = self.r.below(100);
+        if depth == 0 || roll < 30 {
+            let n = self.r.pick(names).clone();
+            return match self.r.below(10) {
+                0 if !quantifiable.is_empty() => { let q = self.r.pick(quantifiable).clone(); json!({"t":"all","n":cps(&q)}) },
+                1 if !quantifiable.is_empty() => {
+                    let q = self.r.pick(quantifiable).clone();
+                    json!({"t":"of","n":cps(&q),"c":self.r.below(4)})
+                }
+                2 => {
+                    let kind = *self.r.pick(&["int", "int", "flt", "str"]);
+                    let op = if kind == "str" { "eq" } else { *self.r.pick(&["eq", "gt", "ge", "lt", "le"]) };
+                    let mut l = self.operand(kind);
+                    let mut r = self.operand(kind);
+                    if l["t"] == "const" && r["t"] == "const" {
+                        l = json!({"t":"cast","k":kind,"f":cps(&self.field(false))});
+                    }
+                    if self.r.chance(1, 8) {
+                        l = json!({"t":"par","e":l});
+                    }
+                    if self.r.chance(1, 8) {
+                        r = json!({"t":"par","e":r});
+                    }
+                    json!({"t":"cmp","op":op,"l":l,"r":r})
+                }
+                _ => json!({"t":"id","n":cps(&n)}),
+            };
+        }
+        if roll < 55 {
+            json!({"t":"and","l":self.cond(names, quantifiable, depth - 1),"r":self.cond(names, quantifiable, depth - 1)})
+        } else if roll < 80 {
+            json!({"t":"or","l":self.cond(names, quantifiable, depth - 1),"r":self.cond(names, quantifiable, depth - 1)})
+        } else if roll < 95 {
+            json!({"t":"not","e":self.cond(names, quantifiable, depth - 1)})
+        } else {
+            json!({"t":"par","e":self.cond(names, quantifiable, depth - 1)})
+        }
+    }
+
+    pub fn source(&mut self, depth: usize) -> J {
+        let nid = 1 + self.r.below(4);
+        let mut names: Vec<String> = vec![];
+        while names.len() < nid {
+            let n = self.r.pick(IDENTS).to_string();
+            if !names.contains(&n) {
+                names.push(n);
+            }
+        }
+        let mut ids = vec![];
+        let mut quantifiable = vec![];
+        for n in &names {
+            let b = self.body(2);
+            if !ident_list_batch(&b) || self.r.chance(self.kf_pct, 100) {
+                quantifiable.push(n.clone());
+            }
+            ids.push(json!([cps(n), b]));
+        }
+        let cond = self.cond(&names, &quantifiable, depth);
+        json!({"cond":cond,"ids":ids})
+    }
+
+    // ------------------------------------------------------------------ documents
+    pub fn doc_value(&mut self, hints: &[J], depth: usize) -> J {
+        let roll = self.r.below(100);
+        if roll < 45 {
+            // a string, preferably related to a pattern of the rule
+            let pats: Vec<&J> = hints.iter().filter(|h| h["t"] == "pat").collect();
+            if !pats.is_empty() && self.r.chance(4, 5) {
+                let p = (*self.r.pick(&pats)).clone();
+                return s_node(&self.near(&p));
+            }
+            let nums: Vec<&J> = hints.iter().filter(|h| h["t"] == "num" || h["t"] == "cmp").collect();
+            if !nums.is_empty() && self.r.chance(1, 2) {
+                let n = (*self.r.pick(&nums)).clone();
+                return s_node(&num_text(&n["n"]).unwrap_or_default());
+            }
+            return s_node(&self.word(4, false));
+        }
+        if roll < 65 {
+            let nums: Vec<&J> = hints.iter().filter(|h| h["t"] == "num" || h["t"] == "cmp").collect();
+            if !nums.is_empty() && self.r.chance(3, 4) {
+                let n = (*self.r.pick(&nums)).clone();
+                let t = num_text(&n["n"]).unwrap_or_default();
+                if n["n"]["k"] == "i" {
+                    return self.int_near(&t);
+                }
+                return f_node(&t.replace(".0", ".5"));
+            }
+            return match self.r.below(4) {
+                0 => f_node(&self.flt_text()),
+                1 => i_node(&self.uint_text()),
+                _ => i_node(&self.int_text()),
+            };
+        }
+        if roll < 72 {
+            return json!({"t":"B","b":self.r.chance(1, 2)});
+        }
+        if roll < 76 {
+            return json!({"t":"N"});
+        }
+        if roll < 88 && depth > 0 {
+            let n = self.r.below(4);
+            let vs: Vec<J> = (0..n).map(|_| self.doc_value(hints, depth - 1)).collect();
+            return json!({"t":"A","vs":vs});
+        }
+        if depth > 0 {
+            let n = self.r.below(3);
+            let mut kv = vec![];
+            for _ in 0..n {
+                let k = (*self.r.pick(&["f", "g", "n", "t", "u"])).to_string();
+                if kv.iter().any(|(x, _): &(String, J)| *x == k) {
+                    continue;
+                }
+                kv.push((k, self.doc_value(hints, depth - 1)));
+            }
+            return obj(kv);
+        }
+        s_node(&self.word(3, true))
+    }
+
+    fn int_near(&mut self, t: &str) -> J {
+        match self.r.below(5) {
+            0 => i_node(t),
+            1 => {
+                // +1 / -1 on the decimal text via i128
+                let v: i128 = t.parse().unwrap_or(0);
+                let w = v + if self.r.chance(1, 2) { 1 } else { -1 };
+                if w >= i64::MIN as i128 && w <= u64::MAX as i128 {
+                    i_node(&w.to_string())
+                } else {
+                    i_node(t)
+                }
+            }
+            2 => f_node(&format!("{}.5", t)),
+            3 => f_node(&format!("{}.0", t)),
+            _ => i_node(t),
+        }
+    }
+
+    /// a document for `src`: every field the rule names gets a value related to the rule's own
+    /// constants (or is left out), plus unrelated fields
+    pub fn doc_for(&mut self, src: &J) -> J {
+        let mut hints: std::collections::BTreeMap<String, Vec<J>> = Default::default();
+        for pair in src["ids"].as_array().unwrap_or(&vec![]) {
+            collect_hints(&pair[1], "", &mut hints);
+        }
+        collect_cond_fields(&src["cond"], &mut hints);
+        let mut root: Vec<(String, J)> = vec![];
+        for (path, hs) in hints.iter() {
+            if self.r.chance(1, 4) {
+                continue; // absent
+            }
+            let v = self.doc_value(hs, 2);
+            insert_path(&mut root, path, v);
+        }
+        if self.r.chance(1, 3) {
+            insert_path(&mut root, "zz", s_node("unrelated"));
+        }
+        obj_from(root)
+    }
+}
+
+fn obj_from(kv: Vec<(String, J)>) -> J {
+    obj(kv)
+}
+
+/// insert value at dotted path (plain segments only), creating objects; an existing non-object
+/// at an intermediate step is left alone (the path then simply does not resolve)
+fn insert_path(root: &mut Vec<(String, J)>, path: &str, v: J) {
+    let (head, rest) = match path.split_once('.') {
+        Some((h, r)) => (h, Some(r)),
+        None => (path, None),
+    };
+    match rest {
+        None => {
+            if !root.iter().any(|(k, _)| k == head) {
+                root.push((head.to_string(), v));
+            }
+        }
+        Some(r) => {
+            if let Some((_, existing)) = root.iter_mut().find(|(k, _)| k == head) {
+                if existing["t"] == "O" {
+                    let mut inner: Vec<(String, J)> = existing["kv"]
+                        .as_array()
+                        .unwrap()
+                        .iter()
+                        .map(|p| (str_of(&p[0]).unwrap(), p[1].clone()))
+                        .collect();
+                    insert_path(&mut inner, r, v);
+                    *existing = obj(inner);
+                }
+            } else {
+                let mut inner = vec![];
+                insert_path(&mut inner, r, v);
+                root.push((head.to_string(), obj(inner)));
+            }
+        }
+    }
+}
+
+fn collect_hints(b: &J, prefix: &str, out: &mut std::collections::BTreeMap<String, Vec<J>>) {
+    match b["t"].as_str().unwrap_or("") {
+        "seq" => {
+            for m in b["ms"].as_array().unwrap_or(&vec![]) {
+                collect_hints(m, prefix, out);
+            }
+        }
+        "map" => {
+            for e in b["es"].as_array().unwrap_or(&vec![]) {
+                let f = str_of(&e["f"]).unwrap_or_default();
+                let path = if prefix.is_empty() { f } else { format!("{}.{}", prefix, f) };
+                let v = &e["v"];
+                match v["t"].as_str().unwrap_or("") {
+                    "map" => {
+                        out.entry(path.clone()).or_default();
+                        collect_hints(v, &path, out);
+                    }
+                    "list" => {
+                        for x in v["vs"].as_array().unwrap_or(&vec![]) {
+                            if x["t"] == "map" {
+                                collect_hints(x, &path, out);
+                            } else {
+                                out.entry(path.clone()).or_default().push(x.clone());
+                            }
+                        }
+                    }
+                    _ => out.entry(path).or_default().push(v.clone()),
+                }
+            }
+        }
+        _ => {}
+    }
+}
+
+fn collect_cond_fields(c: &J, out: &mut std::collections::BTreeMap<String, Vec<J>>) {
+    match c["t"].as_str().unwrap_or("") {
+        "and" | "or" => {
+            collect_cond_fields(&c["l"], out);
+            collect_cond_fields(&c["r"], out);
+        }
+        "not" | "par" => collect_cond_fields(&c["e"], out),
+        "cmp" => {
+            let mut consts = vec![];
+            for o in [&c["l"], &c["r"]] {
+                let o = if o["t"] == "par" { &o["e"] } else { o };
+                if o["t"] == "const" {
+                    consts.push(json!({"t":"num","n":o["n"]}));
+                }
+            }
+            for o in [&c["l"], &c["r"]] {
+                let o = if o["t"] == "par" { &o["e"] } else { o };
+                if o["t"] == "cast" {
+                    let f = str_of(&o["f"]).unwrap_or_default();
+                    let e = out.entry(f).or_default();
+                    e.extend(consts.clone());
+                    e.push(json!({"t":"num","n":int_node("1")}));
+                }
+            }
+        }
+        _ => {}
+    }
+}
+
+fn dedup_entries(es: Vec<J>) -> Vec<J> {
+    let mut seen = std::collections::HashSet::new();
+    let mut out = vec![];
+    for e in es {
+        let k = crate::render::key_text(&e).unwrap_or_default();
+        if seen.insert(k) {
+            out.push(e);
+        }
+    }
+    out
+}
+
+fn batch_class(v: &J) -> String {
+    if v["t"] == "pat" {
+        let k = v["k"].as_str().unwrap_or("");
+        let ic = v["ic"].as_bool().unwrap_or(false);
+        if k == "regex" {
+            return format!("re{}", ic);
+        }
+        if k == "any" || (k == "exact" && v["a"].as_array().map(|a| a.is_empty()).unwrap_or(true)) {
+            return "solo".into();
+        }
+        return format!("aho{}", ic);
+    }
+    "solo".into()
+}
+
+/// keep a quantified string list out of the partial-batch known finding: either every member in
+/// one batch, or no batch with two members
+fn avoid_partial_batch(vs: Vec<J>) -> Vec<J> {
+    let mut counts: std::collections::HashMap<String, usize> = Default::default();
+    for v in &vs {
+        *counts.entry(batch_class(v)).or_default() += 1;
+    }
+    let partial = counts.iter().any(|(c, n)| c != "solo" && *n >= 2 && *n < vs.len());
+    if !partial {
+        return vs;
+    }
+    // keep only the members of the largest batch
+    let best = counts.iter().filter(|(c, _)| *c != "solo").max_by_key(|(_, n)| **n).map(|(c, _)| c.clone()).unwrap();
+    vs.into_iter().filter(|v| batch_class(v) == best).collect()
+}
+
+/// trigger of the ident_list_batch known finding
+fn ident_list_batch(b: &J) -> bool {
+    if b["t"] != "map" {
+        return false;
+    }
+    let es = b["es"].as_array().unwrap();
+    if es.len() != 1 || es[0]["v"]["t"] != "list" {
+        return false;
+    }
+    let mut counts: std::collections::HashMap<String, usize> = Default::default();
+    for v in es[0]["v"]["vs"].as_array().unwrap() {
+        *counts.entry(batch_class(v)).or_default() += 1;
+    }
+    counts.iter().any(|(c, n)| c != "solo" && *n >= 2)
+}
+
 pub fn gen_cases(topic: &str, seed: u64, n: usize, path: &str) -> Result<(), String> {
-    let mut rng = Rng::new(seed);
+    let mut g = G::new(seed ^ topic.bytes().fold(0u64, |a, b| a.wrapping_mul(131).wrapping_add(b as u64)));
     let mut w = BufWriter::new(File::create(path).map_err(|e| e.to_string())?);
-    for i in 0..n {
+    for _ in 0..n {
         let c: J = match topic {
+            "lang" => {
+                let src = g.source(3);
+                let nd = 3 + g.r.below(4);
+                let docs: Vec<J> = (0..nd).map(|_| g.doc_for(&src)).collect();
+                json!({"topic":"lang","oracle":true,"wt":true,"src":src,"docs":docs,
+                       "plan":{"tri":true,"sws":[[]]}})
+            }
             _ => return Err(format!("unknown topic {}", topic)),
         };
-        let _ = (&mut rng, i);
         writeln!(w, "{}", c).map_err(|e| e.to_string())?;
     }
-    let _ = json!(null);
-    let _ = cps("");
+    w.flush().map_err(|e| e.to_string())?;
     Ok(())
 }
